@@ -354,7 +354,7 @@ class TokenParser(Parser):
         flag_token = tokens.consume()
         pattern = self.TOK.patterns[self.TOK.CONFIG_FLAG]
         tok_dict = pattern.match(flag_token.value).groupdict()
-        tokens.flags.extend(tok_dict["values"].split(","))
+        tokens.flags.extend(value.strip() for value in tok_dict["values"].split(","))
 
     def parse(self, data: str) -> None:
         scanner = re.Scanner(self.TOK.tokens)
